@@ -232,3 +232,48 @@ func VerifC18_LateRegistrationInUsedWorld() {
 	W.checkAll("after")
 	vreach("end")
 }
+
+// the public type -> ID maps (components and resources): the generic and the reflective entry
+// point agree, distinct types (structs, named interfaces, pointers, generic instances) get
+// distinct IDs, the same type the same ID, and Resource[T] behaves as a map from type to value
+type vIfaceA interface{ A() }
+type vIfaceB interface{ B() }
+type vGen[T any] struct{ v T }
+type vImplA struct{ n int }
+
+func (vImplA) A() {}
+
+func VerifC18_TypeToIDMaps() {
+	w := NewWorld(1)
+	rids := [...]ResID{
+		ResourceID[vRes](w), ResourceID[vIfaceA](w), ResourceID[vIfaceB](w), ResourceID[*vRes](w),
+		ResourceID[vGen[int]](w), ResourceID[vGen[uint]](w), ResourceID[any](w),
+	}
+	rtypes := [...]reflect.Type{
+		reflect.TypeFor[vRes](), reflect.TypeFor[vIfaceA](), reflect.TypeFor[vIfaceB](), reflect.TypeFor[*vRes](),
+		reflect.TypeFor[vGen[int]](), reflect.TypeFor[vGen[uint]](), reflect.TypeFor[any](),
+	}
+	ok := true
+	for i := range rids {
+		ok = ok && int(rids[i].id) == i && ResourceTypeID(w, rtypes[i]) == rids[i]
+		tp, found := ResourceType(w, rids[i])
+		ok = ok && found && tp == rtypes[i]
+	}
+	vcheck("resource-ids-sequential-distinct-stable-and-agree-with-reflection", ok && ResourceID[vIfaceA](w) == rids[1] && len(ResourceIDs(w)) == len(rids))
+	cids := [...]ID{ComponentID[vRes](w), ComponentID[vGen[int]](w), ComponentID[vGen[uint]](w), ComponentID[vImplA](w)}
+	ctypes := [...]reflect.Type{reflect.TypeFor[vRes](), reflect.TypeFor[vGen[int]](), reflect.TypeFor[vGen[uint]](), reflect.TypeFor[vImplA]()}
+	ok = true
+	for i := range cids {
+		ok = ok && int(cids[i].id) == i && TypeID(w, ctypes[i]) == cids[i]
+	}
+	vcheck("component-ids-sequential-distinct-stable-and-agree-with-reflection", ok && ComponentID[vGen[int]](w) == cids[1] && len(ComponentIDs(w)) == len(cids))
+	// resources of interface type: one value per TYPE, independent of each other
+	ra, rb := NewResource[vIfaceA](w), NewResource[vIfaceB](w)
+	var va vIfaceA = vImplA{1}
+	ra.Add(&va)
+	vcheck("interface-resources-independent", ra.Has() && !rb.Has() && ra.Get() == &va)
+	vcheck("second-add-of-the-same-type-panics", vpanics(func() { ra.Add(&va) }))
+	ra.Remove()
+	vcheck("removed", !ra.Has() && !rb.Has())
+	vreach("end")
+}
